@@ -376,6 +376,59 @@ C06RScope ==
                  r1 \in C06ReplsSlim(InnerLen(x)), r2 \in C06ReplsSlim(InnerLen(x))} :
                x \in C06Inners}
 
+-----------------------------------------------------------------------------
+(* SourceMapSource / default-helper leaves reproduce the given map (C08)    *)
+cB == 98
+C08Texts ==
+  {<<cA>>, <<cA, cB>>, <<cA, cB, cA>>, <<cA, NL>>, <<cA, cB, NL>>, <<cA, NL, cB>>,
+   <<cA, cB, NL, cA>>, <<cA, NL, cB, cA>>, <<cA, NL, NL>>, <<NL>>, <<NL, cA>>, <<>>,
+   <<cA, NL, NL, cB>>}
+
+(* segment positions: every character, the zero-width place after the last  *)
+(* character of every line, and the end of the text                         *)
+C08Positions(t) ==
+  LET ls == Lines(t)
+  IN UNION {{<<ln, c>> : c \in 0..Len(ls[ln])} : ln \in 1..Len(ls)}
+     \cup {EndPos(t)}
+
+PosSeqLt(p, q) == p[1] < q[1] \/ (p[1] = q[1] /\ p[2] < q[2])
+
+C08SegLists(t) ==
+  LET P == C08Positions(t)
+      few == {I \in SUBSET P : Cardinality(I) <= 2}
+      three == {I \in SUBSET P : Cardinality(I) = 3}
+      mk(I, O) ==
+        LET ps == SetToSortSeq(I, PosSeqLt)
+        IN {[j \in 1..Len(ps) |-> Seg(ps[j][1], ps[j][2], f[j])] : f \in [1..Len(ps) -> O]}
+  IN UNION {mk(I, Origs) : I \in few}
+     \cup UNION {mk(I, {<<-1, 0, 0, -1>>, <<0, 2, 1, 0>>}) : I \in three}
+
+Roots == {<<>>, <<<<>>>>, <<<<114>>>>, <<<<114, 47>>>>}
+
+Default(t, m) == [k |-> "default", b |-> t, map |-> <<m>>]
+
+C08Prog(t, segs, root) ==
+  LET m == MapOf(segs, root)
+      leaf == [k |-> "sms", b |-> t, name |-> GenName, map |-> m,
+               inner |-> <<>>, osrc |-> <<>>, remove |-> FALSE]
+      four(r) == <<[op |-> "stream", r |-> r, columns |-> TRUE, final |-> FALSE],
+                   [op |-> "stream", r |-> r, columns |-> FALSE, final |-> FALSE],
+                   [op |-> "stream", r |-> r, columns |-> TRUE, final |-> TRUE],
+                   [op |-> "stream", r |-> r, columns |-> FALSE, final |-> TRUE]>>
+  IN Prog(<<[op |-> "build", dst |-> 0, tree |-> leaf]>> \o four(0) \o ObsAll(0)
+          \o <<[op |-> "build", dst |-> 1, tree |-> Default(t, m)]>> \o four(1)
+          \o <<[op |-> "build", dst |-> 3, tree |-> Raw("str", <<cX, NL, cX>>)]>> \o ObsAll(3)
+          \o <<[op |-> "build", dst |-> 2,
+                tree |-> CC(<<[k |-> "reg", r |-> 3], [k |-> "reg", r |-> 0]>>)]>>
+          \o ObsAll(2)
+          \o <<[op |-> "law", law |-> "concat_children", r |-> 2, children |-> <<3, 0>>]>>)
+
+C08Scope ==
+  IF Scope # "c08" THEN {} ELSE
+  UNION {{C08Prog(t, sl, <<>>) : sl \in C08SegLists(t)} : t \in C08Texts}
+  \cup UNION {UNION {{C08Prog(t, sl, root) : sl \in {x \in C08SegLists(t) : Len(x) = 1}} :
+                      root \in Roots \ {<<>>}} : t \in {<<cA, cB>>, <<cA, NL, cB>>}}
+
 (* size of buffer() is not known to the generator; writers are placed at    *)
 (* every budget up to a bound that covers these small trees                 *)
 ProgSet ==
@@ -384,6 +437,7 @@ ProgSet ==
     [] Scope = "c13" -> LawScope
     [] Scope = "c06" -> C06Scope
     [] Scope = "c06r" -> C06RScope
+    [] Scope = "c08" -> C08Scope
     [] Scope = "c07" -> {Prog(<<Build(t)>> \o ViewObs(9)) : t \in ViewTrees}
     [] OTHER -> {}
 
